@@ -465,6 +465,7 @@ class SeqRun(seq_hooks.HooksMixin, object):
             if not o.deleted and mid in v2.objs and v2.objs[mid].deleted:
                 self._note_keys_released(self.schema.by_name[o.ent], o.vals)
         self.view = v2
+        self.note_fk_edges()
         if must_fail and self.knobs.get('legacy_keys'):
             # tables without UNIQUE constraints (a legacy schema mapped with create_tables=False): the identity
             # map is the only thing that can report the conflict, and only for a key held by a loaded object
